@@ -27,6 +27,10 @@ func RunC01(c *Ctx) {
 	deep := deepDirtyBuffer()
 	c.Rec.Max("max_stack_len_of_buffer_previously_used_by_handler_traversals", int64(stackLen(deep)))
 	fams := []string{"W1", "W3", "W4", "W2", "W2T", "W1R", "W5small"}
+	concurrentPure(c, "Valid(data, nil) / Valid(data, own Buffer)", func(d []byte) string {
+		var own rjson.Buffer
+		return fmt.Sprint(rjson.Valid(d, nil), rjson.Valid(d, &own))
+	})
 	c.RunDocs(fams, func(cs *h.Case) {
 		d := cs.Input
 		m := c.Parse(cs)
@@ -71,6 +75,12 @@ func RunC02(c *Ctx) {
 	var long rjson.Buffer
 	deep := deepDirtyBuffer()
 	fams := []string{"W1", "W1F", "W3", "W4", "W2", "W2T", "W1R", "W5small"}
+	concurrentPure(c, "SkipValue(data, nil) / SkipValue(data, own Buffer)", func(d []byte) string {
+		var own rjson.Buffer
+		p1, e1 := rjson.SkipValue(d, nil)
+		p2, e2 := rjson.SkipValue(d, &own)
+		return fmt.Sprint(p1, errStr(e1), p2, errStr(e2))
+	})
 	c.RunDocs(fams, func(cs *h.Case) {
 		d := cs.Input
 		m := c.Parse(cs)
@@ -113,6 +123,12 @@ func RunC11(c *Ctx) {
 	var long rjson.Buffer
 	deep := deepDirtyBuffer()
 	fams := []string{"W1", "W1F", "W3", "W4", "W2", "W2T", "W1R", "W5small"}
+	concurrentPure(c, "SkipValueFast(data, nil) / SkipValueFast(data, own Buffer)", func(d []byte) string {
+		var own rjson.Buffer
+		p1, e1 := rjson.SkipValueFast(d, nil)
+		p2, e2 := rjson.SkipValueFast(d, &own)
+		return fmt.Sprint(p1, errStr(e1), p2, errStr(e2))
+	})
 	c.RunDocs(fams, func(cs *h.Case) {
 		d := cs.Input
 		c.Guarded(cs, "SkipValueFast", func() {
